@@ -1,5 +1,6 @@
 """C08 - ORDER BY yields a correctly sorted permutation; LIMIT/OFFSET the exact slice."""
 import vlib, rel
+import scale
 
 CFGS = [{"partitions": 1}, {"partitions": 3, "batch_size": 2, "_chunk": 2, "threads": 4},
         {"partitions": 8, "threads": 8}, {"partitions": 2, "batch_size": 3, "_chunk": 3},
@@ -33,6 +34,7 @@ def run(tier):
         dbs_fn=lambda tables, rng: rel.pick_dbs(tables, rng, 8 if tier == "quick" else 30),
         cfgs_fn=lambda rng: CFGS,
         extra_items=big_inputs,
+        post=lambda rep, run_: scale.run(rep, tier, ["sort", "sort2"], "C08"),
         nontrivial=lambda it: len(it["obs"]["rows"]) > 1,
         rule=("GenSort.tla queries (ORDER BY with every direction / NULLS FIRST|LAST|default combination, one and two "
               "keys, expression, boolean and text keys, sorted aggregates and joins; ORDER BY + LIMIT/OFFSET for all "
